@@ -171,6 +171,9 @@ def compile_program(kind, prog, conn="c1", user=A, backend=None):
         if w == "XASSIGN":
             ops.append({"op": "role_assign", "user": user, "role": 1})
             continue
+        if w == "XDAMAGE":        # environment step (fault): the stored parts of the oldest message of store <a> are lost
+            ops.append({"op": "sql_exec", "store": a, "q": "DELETE FROM message_parts WHERE message_id = (SELECT MIN(message_id) FROM message_parts)"})
+            continue
         if w == "LOGIN":
             pw = "pw"
             line = "%s LOGIN %s %s\r\n" % (tag, user, pw)
